@@ -142,6 +142,11 @@ class _Session:
             def keypress(self, size, key):
                 sess.point("keypress")
                 rv = super().keypress(size, key)
+                if rv == "B":
+                    # a widget may pass on a DIFFERENT key than it was given (a vi-keys wrapper does): the
+                    # unhandled-input handler must see what the widget returned
+                    rv = "translated B"
+                    sess.res.probe("widget_returned_a_different_key")
                 sess.calls.append(("keypress", key, rv, tuple(size), self.tag))
                 return rv
 
@@ -685,7 +690,7 @@ class SessionEngine(Engine):
         "real": ["MainLoop", "_posix_raw_display.Screen", "six event loops", "widgets (Frame/ListBox/Edit/Button/...)", "PopUpTarget"],
         "stub": ["tty + termios list", "resize socket pair", "os.pipe for watch_pipe", "selectors/poller/asyncio step/trio fd wait", "clock", "terminal (RefTerm)"],
     }
-    required_probes = ("restoration_checked", "order_checked", "redraw_checked_at_wait", "block_with_resize_pending", "popup_opened", "input_routed_to_open_popup", "root_widget_replaced_from_handler", "input_after_root_swap_in_same_batch")
+    required_probes = ("restoration_checked", "order_checked", "redraw_checked_at_wait", "block_with_resize_pending", "popup_opened", "input_routed_to_open_popup", "root_widget_replaced_from_handler", "input_after_root_swap_in_same_batch", "widget_returned_a_different_key")
     selftest_n = 240
     reducible = ("events",)
 
